@@ -26,6 +26,7 @@ BNToInt(a)     == CHOOSE x \in {} : TRUE
 BNBitLen(a)    == CHOOSE x \in {} : TRUE
 BNIsPow2(a)    == CHOOSE x \in {} : TRUE
 BNBitRev(a, n) == CHOOSE x \in {} : TRUE
+BNDilute(j, s) == CHOOSE x \in {} : TRUE     \* j an integer: bit i of j moved to position i*s
 BNLowBits(a, n) == CHOOSE x \in {} : TRUE
 BHLen(h)       == CHOOSE x \in {} : TRUE
 BHCat(a, b)    == CHOOSE x \in {} : TRUE
